@@ -253,3 +253,53 @@ M2('c12-form-keys-pre-encoded-check-escaped', 'C12', 'R6', [
     {'file': UE, 'old': _UE_IMPORT, 'new': _UE_IMPORT + "from falcon.util.uri import encode_value_check_escaped\n"},
     {'file': UE, 'old': _UE_CALL,
      'new': "        media = [(encode_value_check_escaped(k), v) for k, v in dict(media).items()]\n        return urlencode(media, doseq=True, safe='%').encode()\n"}])
+
+# ----------------------------------------------------------------------- R7 (seeded s6-c12-2)
+# "raise on invalid UTF-8" by sniffing U+FFFD in the percent-decoded text: U+FFFD is a legitimate character
+_UE_PARSE = """            body_str = body.decode('ascii')
+            return parse_query_string(
+                body_str, keep_blank=self._keep_blank, csv=self._csv
+            )
+"""
+M2('c12-form-reject-replacement-char', 'C12', 'R7', [
+    {'file': UE, 'old': _UE_IMPORT, 'new': "from falcon.util.uri import decode\n" + _UE_IMPORT},
+    {'file': UE, 'old': _UE_PARSE, 'new': """            body_str = body.decode('ascii')
+            if '%' in body_str and '\\ufffd' in decode(body_str):
+                raise ValueError('percent-encoded octets are not valid UTF-8')
+            return parse_query_string(
+                body_str, keep_blank=self._keep_blank, csv=self._csv
+            )
+"""}])
+# variant: the parsed result is inspected value by value
+M('c12-form-reject-control-chars-in-values', 'C12', 'R7', UE, _UE_PARSE, """            body_str = body.decode('ascii')
+            result = parse_query_string(
+                body_str, keep_blank=self._keep_blank, csv=self._csv
+            )
+            for value in result.values():
+                if '\\x00' in value:
+                    raise ValueError('NUL in form value')
+            return result
+""")
+# variant: a pattern test on the decoded text, through a helper of the class
+M2('c12-form-reject-by-pattern-in-helper', 'C12', 'R7', [
+    {'file': UE, 'old': _UE_IMPORT, 'new': "import re\n\nfrom falcon.util.uri import decode\n" + _UE_IMPORT},
+    {'file': UE, 'old': _UE_PARSE, 'new': """            body_str = body.decode('ascii')
+            self._check_text(decode(body_str))
+            return parse_query_string(
+                body_str, keep_blank=self._keep_blank, csv=self._csv
+            )
+"""},
+    {'file': UE, 'old': "    def _deserialize(self, body: bytes) -> Any:\n", 'new': """    def _check_text(self, text):
+        if re.search('[\\ufffd\\ufffe\\uffff]', text):
+            raise ValueError('suspicious characters')
+
+    def _deserialize(self, body: bytes) -> Any:
+"""}])
+# variant: an empty form is refused (the parsed result's truthiness decides)
+M('c12-form-reject-empty-mapping', 'C12', 'R7', UE, _UE_PARSE, """            body_str = body.decode('ascii')
+            result = parse_query_string(
+                body_str, keep_blank=self._keep_blank, csv=self._csv
+            )
+            assert result, 'no fields'
+            return result
+""")
